@@ -6,7 +6,7 @@
    (Generated/GenFramerB.v); [crc16_bitwise], [spec_adu_*], [spec_rx_*] are the spec side. *)
 From PM.theories Require Import Base Expr Struct FrBCode Crc FrBCommon FrRtu FrBin FrSpecB.
 From PM.Generated Require Import GenFramerB.
-From PM.proofs Require Import Crc_proofs FrB_witness_proofs.
+From PM.proofs Require Import Crc_proofs FrB_witness_proofs FrB_rtu_proofs.
 Open Scope list_scope.
 Open Scope N_scope.
 
@@ -34,6 +34,48 @@ Example C03_crc_check_value :
   py_crc [49; 50; 51; 52; 53; 54; 55; 56; 57] = Ok 14155%Z /\
   crc16_bitwise [49; 50; 51; 52; 53; 54; 55; 56; 57] = 19255.
 Proof. exact crc_check_value. Qed.
+
+(* buildPacket of the RTU framer = unit, PDU, CRC-16 low byte first: every unit id, every
+   function code, every payload *)
+Theorem C03_build_rtu : forall uid fc data, uid < 256 -> fc < 256 -> wfb data = true ->
+  rtu_build (Z.of_N uid) (Z.of_N fc) data = Ok (spec_adu_rtu uid (fc :: data)).
+Proof. exact rtu_build_spec. Qed.
+Print Assumptions C03_build_rtu.
+
+(* a unit id outside 0..255 cannot be framed (struct.error) *)
+Theorem C03_build_rtu_bad_unit : forall uid fc data, ~ (0 <= uid < 256)%Z ->
+  rtu_build uid fc data = Raise StructError.
+Proof. exact rtu_build_bad_unit. Qed.
+Print Assumptions C03_build_rtu_bad_unit.
+
+(* the RTU size oracle returns the true frame length whenever the frame has the shape its
+   class attribute describes: fixed size, or a byte count at position p *)
+Theorem C03_rtu_size_oracle : forall r f,
+  (r = RFixed (zlen f)) \/
+  (exists p b, r = RByteCount p /\ (0 <= p)%Z /\ nth_error f (Z.to_nat p) = Some b /\ (zb b = zlen f - p - 3)%Z) ->
+  frame_size r f = Ok (zlen f).
+Proof. exact size_oracle_shape. Qed.
+Print Assumptions C03_rtu_size_oracle.
+
+(* ... it is stable when more bytes follow and never takes a strict prefix for a whole frame *)
+Theorem C03_rtu_size_oracle_stable : forall r f q, simple_rule r = true -> frame_size r f = Ok (zlen f) ->
+  frame_size r (f ++ q) = Ok (zlen f) /\
+  (forall b q', f = b ++ q' -> frame_size r b = Raise IndexError \/ frame_size r b = Ok (zlen f)).
+Proof. exact simple_rule_oracle. Qed.
+Print Assumptions C03_rtu_size_oracle_stable.
+
+(* a whole valid frame handed to a fresh receiver is delivered exactly once, unit id kept,
+   nothing left in the buffer: every unit id, every class whose size oracle is right for
+   this frame ([valid_frame]: PDU accepted by the decoder, unit accepted by the filter) *)
+Theorem C03_whole_frame_rtu : forall cfg u pdu, valid_frame cfg u pdu ->
+  rtu_recv cfg rtu_init (spec_adu_rtu u pdu) = ({| r_buf := []; r_hdr := hdr_empty |}, [(pdu, Z.of_N u)], FOk).
+Proof. exact rtu_whole_frame. Qed.
+Print Assumptions C03_whole_frame_rtu.
+
+Example C03_nonvacuous :
+  let cfg := {| cf_dec := fun _ => DMsg; cf_rules := server_decoder; cf_units := [1%Z]; cf_single := false |} in
+  valid_frame cfg 1 [3; 0; 1; 0; 2] /\ valid_frame cfg 1 [16; 0; 1; 0; 1; 2; 123; 125].
+Proof. exact valid_frame_example. Qed.
 
 (* ---- the full statement for one framing, kept visible *)
 Definition C03_full_statement_binary : Prop :=
